@@ -57,6 +57,13 @@ func main() {
 				os.Exit(2)
 			}
 			res = runChanCase(&c)
+		case "pipe":
+			var c PipeCase
+			if err := json.Unmarshal(b, &c); err != nil {
+				fmt.Fprintf(os.Stderr, "line %d: %v\n", line, err)
+				os.Exit(2)
+			}
+			res = runPipeCase(&c)
 		case "pool":
 			var c PoolCase
 			if err := json.Unmarshal(b, &c); err != nil {
